@@ -569,7 +569,9 @@ def monitor_exit(sh: Shadow, i: int, op: dict[str, Any], r: dict[str, Any]) -> N
         if outs:
             want_bodies.append("body [" + ", ".join(outs) + "]")
     if body_lines != want_bodies:
-        sh.flag("C13,C01", f"step {i}: operations performed inside teardown callbacks of context {c} answered "
+        # (a lookup that must return what a factory has generated in this context before: C04, too)
+        sh.flag("C13,C01,C04" if any("val g" in w for w in want_bodies) else "C13,C01",
+                f"step {i}: operations performed inside teardown callbacks of context {c} answered "
                            f"{body_lines}, expected {want_bodies} (during teardown everything but "
                            f"add_resource_factory is still allowed)")
     # ---- outcome
